@@ -20,7 +20,7 @@ import (
 func Expr(v ssa.Value) string { return exprDepth(v, nil, 0) }
 
 func exprDepth(v ssa.Value, subst map[*ssa.Parameter]string, depth int) string {
-	if depth > 12 {
+	if depth > 40 {
 		return "…"
 	}
 	d := depth + 1
@@ -106,7 +106,7 @@ func exprDepth(v ssa.Value, subst map[*ssa.Parameter]string, depth int) string {
 			if e == v {
 				continue
 			}
-			s := exprDepth(e, subst, d+3)
+			s := exprDepth(e, subst, d+1)
 			if !seen[s] {
 				seen[s] = true
 				parts = append(parts, s)
@@ -218,6 +218,10 @@ func callExpr(c *ssa.CallCommon, subst map[*ssa.Parameter]string, d int) string 
 // return one value (predicate wrappers such as IsInterrupted, IsRuleEngineOff).
 func inlinePure(callee *ssa.Function, args []ssa.Value, subst map[*ssa.Parameter]string, d int) (string, bool) {
 	if len(callee.Blocks) != 1 || d > 8 {
+		return "", false
+	}
+	// only wrappers of the target module are inlined (library accessors keep their call form)
+	if callee.Pkg == nil || !(callee.Pkg.Pkg.Path() == ModPath || strings.HasPrefix(callee.Pkg.Pkg.Path(), ModPath+"/")) {
 		return "", false
 	}
 	var ret *ssa.Return
